@@ -6,10 +6,19 @@
 
    Strings (variant IDs, chromosomes, header names, sample names) are interned
    to Z by the harness (sample names order-preservingly).  p-values and the
-   thresholds p1, p2 are the exact rational values of the parsed float64s; kb is
-   the decimal the user typed (|dpos|/1000 < kb is then decided exactly). *)
-From HV Require Import Prelude PearsonQ.
+   thresholds p1, p2, r2 are the exact rational values of the parsed float64s.
+   kb is the float64 the code receives and the window test is the code's own
+   arithmetic, bit for bit: abs(pos - pos_i) / 1000 < kb with an IEEE-754
+   binary64 division and comparison (PrimFloat).  Python's int / int is the
+   correctly rounded quotient of the two integers; for |dpos| < 2^53 (every
+   VCF / PVAR position is < 2^31) that is float(|dpos|) / 1000.0, which is
+   what [dist_kb] computes.
+   Variant objects are compared by identity in RemoveClump: every loaded row
+   carries its load index [sv_key] and removal is by key, so that two rows with
+   the same ID are two variants, as in the code. *)
+From HV Require Import Prelude PearsonQ Stats.
 From Coq Require Import QArith.
+From Coq Require PrimFloat.
 Open Scope Z_scope.
 
 Definition E_Value : Z := 1.
@@ -21,7 +30,8 @@ Definition Qlt_bool (a b : Q) : bool := negb (Qle_bool b a).
 
 (* ---- summary statistics ---------------------------------------------------- *)
 
-Record svar := mksv { sv_id : Z; sv_chrom : Z; sv_pos : Z; sv_p : Q; sv_type : Z }.   (* type: 0 SNP, 1 STR *)
+(* type: 0 SNP, 1 STR; key: index of the row among the loaded rows (object identity) *)
+Record svar := mksv { sv_id : Z; sv_chrom : Z; sv_pos : Z; sv_p : Q; sv_type : Z; sv_key : Z }.
 
 (* a whitespace-separated token with what Python's int() / float() make of it *)
 Record cell := mkcell { c_tok : Z; c_int : option Z; c_flt : option Q }.
@@ -44,7 +54,7 @@ Definition load_row (snp_col p_col chrom_col pos_col : nat) (p2 : Q) (vartype : 
   if Qlt_bool p2 p then Ok None else
   bind (col snp_col row) (fun cs => bind (col chrom_col row) (fun cc =>
   bind (col pos_col row) (fun cq => bind (need (c_int cq)) (fun pos =>
-  Ok (Some (mksv (c_tok cs) (c_tok cc) pos p vartype)))))))).
+  Ok (Some (mksv (c_tok cs) (c_tok cc) pos p vartype 0)))))))).
 
 (* reading stops at the first blank line *)
 Fixpoint load_rows (snp_col p_col chrom_col pos_col : nat) (p2 : Q) (vartype : Z) (rows : list (list cell))
@@ -78,14 +88,28 @@ Fixpoint scan_best (p1 : Q) (best : option svar) (bestp : Q) (l : list svar) : o
   end.
 Definition next_index (p1 : Q) (l : list svar) : option svar := scan_best p1 None 1 l.
 
-(* QueryWindow: abs(pos - pos_i) / 1000 < kb on the index's chromosome *)
-Definition in_window (iv : svar) (kb : Q) (v : svar) : bool :=
-  (sv_chrom v =? sv_chrom iv) && Qlt_bool (Z.abs (sv_pos v - sv_pos iv) # 1000) kb.
-Definition query_window (iv : svar) (kb : Q) (l : list svar) : list svar := filter (in_window iv kb) l.
+(* the keys 0, 1, 2, ... in load order (SNP table, then STR table) *)
+Fixpoint rekey (k : Z) (l : list svar) : list svar :=
+  match l with
+  | [] => []
+  | v :: r => mksv (sv_id v) (sv_chrom v) (sv_pos v) (sv_p v) (sv_type v) k :: rekey (k + 1) r
+  end.
 
-(* RemoveClump (Variant objects are compared by identity = by ID here) *)
-Definition has_id (x : Z) (l : list svar) : bool := existsb (fun v => sv_id v =? x) l.
-Definition remove_vars (gone l : list svar) : list svar := filter (fun v => negb (has_id (sv_id v) gone)) l.
+(* QueryWindow: abs(pos - pos_i) / 1000 < kb on the index's chromosome.
+   [win_float]: the code's float64 arithmetic.  [win_q]: the mathematical test
+   |dpos| / 1000 < kb over the rationals (used by the checker of the property). *)
+Definition dist_bp (iv v : svar) : Z := Z.abs (sv_pos v - sv_pos iv).
+Definition dist_kb (iv v : svar) : PrimFloat.float := PrimFloat.div (f_of_Z (dist_bp iv v)) (f_of_Z 1000).
+Definition win_float (kb : PrimFloat.float) (iv v : svar) : bool :=
+  (sv_chrom v =? sv_chrom iv) && PrimFloat.ltb (dist_kb iv v) kb.
+Definition win_q (kb : Q) (iv v : svar) : bool :=
+  (sv_chrom v =? sv_chrom iv) && Qlt_bool (dist_bp iv v # 1000) kb.
+(* the window predicate is a parameter of the loop: [win iv v] = "v is in the window of index iv" *)
+Definition query_window (win : svar -> svar -> bool) (iv : svar) (l : list svar) : list svar := filter (win iv) l.
+
+(* RemoveClump: Variant objects are compared by identity = by load key *)
+Definition has_key (x : Z) (l : list svar) : bool := existsb (fun v => sv_key v =? x) l.
+Definition remove_vars (gone l : list svar) : list svar := filter (fun v => negb (has_key (sv_key v) gone)) l.
 
 Fixpoint filter_res {A} (f : A -> res bool) (l : list A) : res (list A) :=
   match l with
@@ -98,7 +122,7 @@ Definition clump := (svar * list svar)%type.
 (* the while loop of clumpstr.  [load iv] = LoadVariant(indexvar) (done before the candidates
    are looked at, so it can raise even when the window is empty); [pass gi iv c] = "r2 of c
    with the index exceeds the threshold".  Fuel: one unit per clump. *)
-Fixpoint clump_loop {G} (fuel : nat) (p1 kb : Q) (load : svar -> res G)
+Fixpoint clump_loop {G} (fuel : nat) (p1 : Q) (win : svar -> svar -> bool) (load : svar -> res G)
          (pass : G -> svar -> svar -> res bool) (stats : list svar) : res (list clump) :=
   match next_index p1 stats with
   | None => Ok []
@@ -107,16 +131,16 @@ Fixpoint clump_loop {G} (fuel : nat) (p1 kb : Q) (load : svar -> res G)
       | O => Err E_Timeout
       | S f =>
           bind (load iv) (fun gi =>
-          bind (filter_res (pass gi iv) (query_window iv kb stats)) (fun members =>
-          bind (clump_loop f p1 kb load pass (remove_vars (members ++ [iv]) stats)) (fun rest =>
+          bind (filter_res (pass gi iv) (query_window win iv stats)) (fun members =>
+          bind (clump_loop f p1 win load pass (remove_vars (members ++ [iv]) stats)) (fun rest =>
           Ok ((iv, members) :: rest))))
       end
   end.
 
 (* the loop over a total boolean r2 test (no genotype lookup failures) *)
-Definition clump_loop_total (fuel : nat) (p1 kb : Q) (pb : svar -> svar -> bool) (stats : list svar)
+Definition clump_loop_total (fuel : nat) (p1 : Q) (win pb : svar -> svar -> bool) (stats : list svar)
   : res (list clump) :=
-  clump_loop fuel p1 kb (fun _ => Ok tt) (fun _ iv c => Ok (pb iv c)) stats.
+  clump_loop fuel p1 win (fun _ => Ok tt) (fun _ iv c => Ok (pb iv c)) stats.
 
 (* ---- genotypes -------------------------------------------------------------- *)
 
@@ -240,7 +264,7 @@ Definition merged_gts (snps strs : option gset) : res (list gent) :=
 Record cfg := mkcfg {
   k_hdr_snp : list Z; k_rows_snp : option (list (list cell));
   k_hdr_str : list Z; k_rows_str : option (list (list cell));
-  k_fields : fields; k_p1 : Q; k_p2 : Q; k_kb : Q; k_r2 : Q;
+  k_fields : fields; k_p1 : Q; k_p2 : Q; k_r2 : Q;
   k_exact : bool;
   k_snps : option gset; k_strs : option gset
 }.
@@ -251,8 +275,18 @@ Definition opt_load (hdr : list Z) (f : fields) (p2 : Q) (ty : Z) (rows : option
   : res (list svar) :=
   match rows with None => Ok [] | Some r => load_stats hdr f p2 ty r end.
 
-(* [r2of] : the r2 ComputeLD returns for (candidate calls, index calls); None = NaN *)
-Definition clumpstr (r2of : svar -> svar -> list (Z * Z) -> list (Z * Z) -> res (option Q)) (k : cfg)
+(* "r2 > clump_r2" for candidate c of index iv whose calls gi are loaded; NaN > x is False *)
+Definition r2_pass (r2of : svar -> svar -> list (Z * Z) -> list (Z * Z) -> res (option Q)) (r2 : Q)
+           (gts : list gent) (gi : list (Z * Z)) (iv c : svar) : res bool :=
+  bind (load_variant gts c) (fun gc =>
+  bind (r2of iv c gc gi) (fun r =>
+  Ok (match r with Some v => Qlt_bool r2 v | None => false end))).
+
+(* [r2of] : the r2 ComputeLD returns for (candidate calls, index calls); None = NaN.
+   [win] : the window test of QueryWindow - the code's is [win_float kb] with kb the float64
+   given as clump_kb (C17_Check.model_clump); the theorems hold for every window predicate *)
+Definition clumpstr (r2of : svar -> svar -> list (Z * Z) -> list (Z * Z) -> res (option Q))
+           (win : svar -> svar -> bool) (k : cfg)
   : res (list clump) :=
   (* "One of summstats-... and gts-... is not present" *)
   if negb (Bool.eqb (is_some (k_rows_snp k)) (is_some (k_snps k))) then Err E_Exc else
@@ -262,11 +296,16 @@ Definition clumpstr (r2of : svar -> svar -> list (Z * Z) -> list (Z * Z) -> res 
   bind (opt_load (k_hdr_str k) (k_fields k) (k_p2 k) 1 (k_rows_str k)) (fun s2 =>
   if match k_snps k with Some a => existsb snp_calls_bad (gs_vars a) | None => false end then Err E_Value else
   bind (merged_gts (k_snps k) (k_strs k)) (fun gts =>
-  let stats := s1 ++ s2 in
-  clump_loop (length stats) (k_p1 k) (k_kb k) (load_variant gts)
-    (fun gi iv c => bind (load_variant gts c) (fun gc =>
-                    bind (r2of iv c gc gi) (fun r =>
-                    Ok (match r with Some v => Qlt_bool (k_r2 k) v | None => false end))))
-    stats))).
+  let stats := rekey 0 (s1 ++ s2) in
+  clump_loop (length stats) (k_p1 k) win (load_variant gts)
+    (r2_pass r2of (k_r2 k) gts) stats))).
 
 Definition pearson_oracle (iv c : svar) (gc gi : list (Z * Z)) : res (option Q) := Ok (pearson_ld gc gi).
+
+(* the total boolean test the Pearson oracle induces: "both variants have exactly one genotype
+   record and the squared correlation of their dosages exceeds r2" *)
+Definition pearson_pb (r2 : Q) (gts : list gent) (iv c : svar) : bool :=
+  match load_variant gts iv, load_variant gts c with
+  | Ok gi, Ok gc => match pearson_ld gc gi with Some v => Qlt_bool r2 v | None => false end
+  | _, _ => false
+  end.
